@@ -269,6 +269,16 @@ def model(m, s, fi, t, fk, args, site):
             if ref is not None:
                 return Tup([Ref(ref.fi, ref.local, ref.proj + (("sub", 0, k),)), Ref(ref.fi, ref.local, ref.proj + (("sub", k, len(seq) - k),))])
             return Tup([Tup(seq[:k]), Tup(seq[k:])])
+    if n in ("split_first", "split_last", "split_first_mut", "split_last_mut") and len(args) == 1 and d.startswith("core::slice"):
+        ref, seq = seq_of(m, s, args[0])
+        if seq is not None:
+            if not seq:
+                return NONE
+            L = len(seq)
+            k, a, ln = (0, 1, L - 1) if n.startswith("split_first") else (L - 1, 0, L - 1)
+            if ref is not None:
+                return some(Tup([Ref(ref.fi, ref.local, ref.proj + (("i", k),)), Ref(ref.fi, ref.local, ref.proj + (("sub", a, ln),))]))
+            return some(Tup([seq[k], Tup(seq[a:a + ln])]))
     if n in ("first", "last") and len(args) == 1 and isinstance(A[0], Tup) and d.startswith("core::slice"):
         if not A[0]:
             return NONE
